@@ -37,7 +37,8 @@ InvSpecial(a) == BigEq(a, 1) \/ BigEq(a, N -- 1) \/ (a \prec 1024)
                  \/ (\E k \in 10..255 : BigEq(a, Pow2(k)))
 
 Verdict(ev) ==
-  CASE ev.ev = "sc.Add" ->
+  CASE ev.ev = "lib.Unexpected" -> << FALSE, {} >>                 \* a call that must succeed failed or panicked
+    [] ev.ev = "sc.Add" ->
          LET a == H(ev.a) b == H(ev.b) IN
          << Is(SAdd(a, b), ev.out) /\ PostsOK(ev),
             (IF N \preceq (a ++ b) THEN {"sum_window"} ELSE {}) \cup AliasClass(ev)
